@@ -92,8 +92,6 @@ structure Problem where
   nunis : Nat
   surfKind : Nat → SurfKind
   nconst : Nat → Nat
-  /-- does the FILL tree of cell `i` have the parentheses of a transform (as read) -/
-  fillParens : Nat → Bool
 
 abbrev AbstractProblem := Quantity → Obs
 
@@ -527,10 +525,10 @@ def written (p : Problem) : WKey → Obs
   | .cellFill i => match p.field (.cellFillUni i) with
     | .ptr (some u) => p.field (.uniNumber u)
     | _ => .absent
-  -- data_inputs/fill.py:Fill._update_cell_values (named transform): the payload only replaces what stands between
-  -- parentheses that are already in the tree (`if start > 0 and end > 0`)
+  -- data_inputs/fill.py:Fill._update_cell_values (named transform): the number of the transform between the
+  -- parentheses the entry has, or gets when it was read without a transform
   | .cellFillTr i => match p.field (.cellFillUni i), p.field (.cellFillTr i) with
-    | .ptr (some _), .ptr (some t) => if p.fillParens i then nodeNumber p (.trNumber t) else .absent
+    | .ptr (some _), .ptr (some t) => nodeNumber p (.trNumber t)
     | _, _ => .absent
   -- surfaces/surface.py:Surface._update_values
   | .surfModifier i => match p.field (.surfReflect i), p.field (.surfWhite i) with
